@@ -129,6 +129,18 @@ pub fn run(ctx: &mut Ctx) {
             if r.a.0 != r.b.1 || r.b.0 != r.a.1 {
                 ctx.violation(case, "sent-received-counts-not-mirrored", detail(json!({"initiator": r.a, "acceptor": r.b})));
             }
+            // One session in three is followed, before anything is read (a read commits the write
+            // batch), by a call each store must refuse: it names a document the store does not have,
+            // as a late completion does after its document was dropped. What the session stored must
+            // not go with it (added after seeded change agent-C01-9).
+            if case % 3 == 0 {
+                let missing = crate::gen::namespace(200).id();
+                for s in [&mut a, &mut b] {
+                    let _ = s.register_useful_peer(missing, [9u8; 32]);
+                    let _ = s.set_download_policy(&missing, iroh_docs::store::DownloadPolicy::default());
+                }
+                ctx.count("sessions_followed_by_a_refused_call", 1);
+            }
             let (a1, b1) = (dump_model(&mut a, ns).unwrap(), dump_model(&mut b, ns).unwrap());
             if a1 != b1 {
                 ctx.violation(case, &format!("replicas-differ-after-session[{params}]"), detail(json!({"a1": a1.short(), "b1": b1.short()})));
